@@ -2,6 +2,7 @@ package c17
 
 import (
 	"bytes"
+	stdjson "encoding/json"
 	"fmt"
 	"regexp"
 	"sort"
@@ -425,6 +426,22 @@ func plainName(n string) bool {
 	return true
 }
 
+// spellsName reports whether lit is a quoted JSON string literal for name. A literal the
+// lenient scanner accepted but encoding/json refuses is not judged beyond its quotes.
+func spellsName(lit, name string) bool {
+	if lit == `"`+name+`"` {
+		return true
+	}
+	if len(lit) < 2 || lit[0] != '"' || lit[len(lit)-1] != '"' {
+		return false
+	}
+	var dec string
+	if err := stdjson.Unmarshal([]byte(lit), &dec); err != nil {
+		return true
+	}
+	return dec == name
+}
+
 func (k *checker) walkJSONBody(b hcl.Body, parent *hcl.Range, depth int) {
 	if b == nil {
 		return
@@ -447,10 +464,10 @@ func (k *checker) walkJSONBody(b hcl.Body, parent *hcl.Range, depth int) {
 		okA := k.checkRange(a.Range, "json.Attribute", "Range")
 		if k.checkRange(a.NameRange, "json.Attribute", "NameRange") && plainName(n) {
 			// a position is sane when it is the position of the thing: the bytes under the name
-			// range are the name as written (judged for plain ASCII names, which are written
-			// exactly one way)
+			// range are a string literal that spells the name (judged for plain ASCII names;
+			// `\/` and `\u0041` are other spellings of such a name)
 			k.st.jsonNames++
-			if got := string(k.src[a.NameRange.Start.Byte:a.NameRange.End.Byte]); got != `"`+n+`"` {
+			if got := string(k.src[a.NameRange.Start.Byte:a.NameRange.End.Byte]); !spellsName(got, n) {
 				k.report("range:name-range-not-on-the-name@json.Parse",
 					fmt.Sprintf("json.Parse: the name range %s of property %q covers %q", rstr(a.NameRange), n, clip([]byte(got))),
 					map[string]any{"range": rstr(a.NameRange), "covers": got})
